@@ -50,7 +50,7 @@ PROPS = {
     "C14": {
         "level": "fault_enumeration",
         "tests": [{"name": "TestC14", "noasm": True, "quick": 1200, "thorough": 16000}],
-        "rule": "cases = (setting, Write/Flush/Close sequence, error value, short-write size, optional Reset+later history) drawn by rapid; for each case the fault-free run counts the destination calls N and then EVERY k in 1..N (N<=64; stratified sample of first/last/op-boundary/stride otherwise) is injected. Cost bound (by size, not time): for settings whose compressor is compress/flate's (levels 3..9, dictionaries) the writes are scaled to <= 100 KiB (32 KiB at levels >= 7, where compress/flate drops to ~75 KB/s on low-entropy data) and inputs above 16 KiB get the stratified sample. gzip headers include non-ASCII Latin-1 names/comments (converted strings are separate destination calls). "
+        "rule": "cases = (setting, Write/Flush/Close sequence, error value in {custom sentinel, io.ErrClosedPipe, *os.PathError, custom struct, io.EOF, io.ErrShortWrite, and the errors a closed compress/flate Writer and a closed fastgo Writer return - compressors stacked and closed in the wrong order}, short-write size, up to four further calls issued after the history's Close in the runs with a fault - i.e. after a failed Close -, optional Reset+later history) drawn by rapid; for each case the fault-free run counts the destination calls N and then EVERY k in 1..N (N<=64; stratified sample of first/last/op-boundary/stride otherwise) is injected. Cost bound (by size, not time): for settings whose compressor is compress/flate's (levels 3..9, dictionaries) the writes are scaled to <= 100 KiB (32 KiB at levels >= 7, where compress/flate drops to ~75 KB/s on low-entropy data) and inputs above 16 KiB get the stratified sample. gzip headers include non-ASCII Latin-1 names/comments (converted strings are separate destination calls). "
                 "Oracle: the operation containing call k returns the injected error; every later call returns non-nil; zero destination calls after the failure; no panic; canaries around Writer buffers intact; Reset(good) behaves like a new Writer; the fault-free run yields a complete valid container. "
                 "evaluations = (case, k) pairs. Non-trivial = the failing call happens inside Flush or Close, or k>1; fastgo's own compressor.",
         "assumptions": COMMON_ASSUME,
@@ -77,7 +77,7 @@ PROPS = {
     "C20": {
         "level": "exploration",
         "tests": [{"name": "TestC20", "noasm": True, "quick": 8000, "thorough": 400000}],
-        "rule": "cases = expansion mode (uniform, near-uniform, Fibonacci-skewed, all-distinct, alternating compressible/incompressible, mixed recipes; sizes around block thresholds; levels -2,-1,1,2; both windows; one or several Writes, one Close, no Flush) and periodic mode (period 1..64 of random bytes, n in {65536,65537,70000,131072,200000,max}; levels 1,2,-1); periods in the class of the known finding periodic-hash-bucket-collisions (>= 3/4 of the period's 4-byte windows share a match-finder hash bucket with another window; never drawn at random: max fraction seen 1/2) are excluded and counted; "
+        "rule": "cases = expansion mode (uniform, near-uniform, Fibonacci-skewed, all-distinct, alternating compressible/incompressible, mixed recipes; sizes around block thresholds; levels -2,-1,1,2; both windows; one or several Writes, one Close, no Flush) and periodic mode (period 1..64, long periods sampled evenly, of random bytes over all 256 values or over 2/3/4/16/64 letters, n in {65536,65537,70000,131072,200000,max}; levels 1,2,-1); periods in the class of the known finding periodic-hash-bucket-collisions (>= 3/4 of the period's 4-byte windows share a match-finder hash bucket with another window; never drawn at random: max fraction seen 1/2) are excluded and counted; periods in the class of the known finding periodic-repeated-windows (some 4-byte window occurs twice within the period; nearly all periods over 2..4 letters) are counted and held to the residual oracle only (round trip, expansion bound); "
                 "oracle: len(out) <= n + n/32 + 256, resp. <= n/32 + 1200, and the output decodes to the input. Non-trivial = n >= 1. measurements report the worst observed fraction of each bound per setting.",
         "assumptions": COMMON_ASSUME,
     },
